@@ -57,6 +57,11 @@ def step_text(sid, outcome):
     return "step %d %s" % (sid, outcome)
 
 
+def cell_text(outcome):
+    """how an outcome is written into an examples-table cell"""
+    return "nodef" if outcome == "undefined" else "convert zz" if outcome == "convert" else outcome
+
+
 # ----------------------------------------------------------------- walking
 def walk_scenarios(prog):
     """yields (path, kind, info) for every runnable scenario in run order.
@@ -86,7 +91,8 @@ def _walk_items(cont, path, inh_tags, inh_bg, sid):
             for o in it[2]:
                 sid[0] += 1
                 steps.append((sid[0], o))
-            yield p, "S", {"tags": tags + tuple(it[1]), "own": tuple(it[1]), "steps": bgs + steps, "nbg": len(bgs)}
+            yield p, "S", {"tags": tags + tuple(it[1]), "own": tuple(it[1]), "steps": bgs + steps, "nbg": len(bgs),
+                           "names": [step_text(sid_, o_) for sid_, o_ in bgs + steps]}
         elif it[0] == "O":
             ncols = it[2]
             tsids = []
@@ -98,8 +104,10 @@ def _walk_items(cont, path, inh_tags, inh_bg, sid):
                 for row in rows:
                     own = tuple((row[ncols] if t == PTAG else t) for t in it[1]) + tuple(extags)
                     steps = [(tsids[c], row[c]) for c in range(ncols)]
+                    names = [step_text(sid_, o_) for sid_, o_ in bgs] + \
+                            ["step %d %s" % (tsids[c], cell_text(row[c])) for c in range(ncols)]
                     yield p + (ri,), "row", {"tags": tags + own, "own": own, "steps": bgs + steps,
-                                              "nbg": len(bgs), "outline": p}
+                                              "nbg": len(bgs), "outline": p, "names": names}
                     ri += 1
         else:
             for x in _walk_items(it, p, tags, bgs, sid):
@@ -268,7 +276,7 @@ def render(feature, fi=0, indent="  ", language=None):
                     cols = ["o%d" % c for c in range(ncols)] + (["tg"] if has_ptag else [])
                     emit("%s| %s |" % (ind + indent * 3, " | ".join(cols)))
                     for row in rows:
-                        cells = [("nodef" if v == "undefined" else "convert zz" if v == "convert" else v) for v in row]
+                        cells = [cell_text(v) for v in row]
                         meta["lines"][p + (ri,)] = emit("%s| %s |" % (ind + indent * 3, " | ".join(cells)))
                         ri += 1
             else:
